@@ -3,5 +3,5 @@
 n="$1"; shift
 p="$n"; [ -f "$p" ] || p=/verif/benign/$n/patch.diff; [ -f "$p" ] || p=/verif/seeded/$n/patch.diff
 [ -d /tmp/dev_wt ] || git -C /repo worktree add --detach /tmp/dev_wt HEAD >/dev/null 2>&1
-git -C /tmp/dev_wt checkout -q -- . && git -C /tmp/dev_wt apply "$p" || exit 3
+git -C /tmp/dev_wt checkout -q -- . && git -C /tmp/dev_wt clean -fdq && git -C /tmp/dev_wt apply "$p" || exit 3
 for c in "$@"; do VERIF_REPO=/tmp/dev_wt /venv/bin/python /verif/sa/check.py $c --tier quick --no-write 2>&1 | grep -v "^  rule"; done
